@@ -461,11 +461,38 @@ static void fog_case(Report & rep, Rng & r, int no, int ny, int nx)
   for (int j = 0; j < ny; ++j) Hg.middleCols(j * nx, nx) = P[size_t(j)].cast<double>();
 
   Mat got;
+  int form = 0;
   if constexpr (SPARSE) {
     Eigen::SparseMatrix<double> Jfs = Jf.sparseView();
-    got                             = toL(smooth::d2_fog(Jfs, Hf, Jg, Hg));
+    if (r.coin(0.4)) {
+      form = 1;
+      const Eigen::Matrix<double, -1, -1, Eigen::RowMajor> HfR = Hf, HgR = Hg;
+      const Eigen::MatrixXd JgD = Jg;
+      got = toL(smooth::d2_fog(Jfs, HfR, JgD, HgR));
+    } else {
+      got = toL(smooth::d2_fog(Jfs, Hf, Jg, Hg));
+    }
   } else {
-    got = toL(smooth::d2_fog(Jf, Hf, Jg, Hg));
+    // the arguments are Eigen expressions: the result may not depend on their storage order or strides
+    form = r.below(4);
+    using RM = Eigen::Matrix<double, -1, -1, Eigen::RowMajor>;
+    if (form == 0) {
+      got = toL(smooth::d2_fog(Jf, Hf, Jg, Hg));
+    } else if (form == 1) {
+      const RM HfR = Hf, HgR = Hg;
+      const Eigen::MatrixXd JfD = Jf, JgD = Jg;
+      got = toL(smooth::d2_fog(JfD, HfR, JgD, HgR));
+    } else if (form == 2) {
+      Eigen::MatrixXd bigf = Eigen::MatrixXd::Constant(ny + 2, no * ny, 7.5), bigg = Eigen::MatrixXd::Constant(nx + 3, ny * nx, -3.25);
+      bigf.topRows(ny) = Hf;
+      bigg.topRows(nx) = Hg;
+      const Eigen::MatrixXd JfD = Jf, JgD = Jg;
+      got = toL(smooth::d2_fog(JfD, bigf.topRows(ny), JgD, bigg.topRows(nx)));
+    } else {
+      const RM JfR = Jf, JgR = Jg;
+      const Eigen::MatrixXd HfD = Hf, HgD = Hg;
+      got = toL(smooth::d2_fog(JfR, HfD, JgR, HgD));
+    }
   }
   // reference 1: index definition from the same (rounded) inputs
   Mat ref(nx, no * nx);
@@ -505,7 +532,8 @@ static void fog_case(Report & rep, Rng & r, int no, int ny, int nx)
         const Vec ea = orc::unit(nx, a), eb = orc::unit(nx, b);
         ref2(a, i * nx + b) = (a == b) ? d2dir(i, ea) : 0.5L * (d2dir(i, ea + eb) - d2dir(i, ea) - d2dir(i, eb));
       }
-  const std::string st = std::string(NO > 0 ? "static" : "dynamic") + (SPARSE ? ",sparseJf" : ",denseJf") + ",no=" + std::to_string(no)
+  static const char * forms[] = {"", ",rowmajorH", ",blockviewH", ",rowmajorJ"};
+  const std::string st = std::string(NO > 0 ? "static" : "dynamic") + (SPARSE ? ",sparseJf" : ",denseJf") + forms[form] + ",no=" + std::to_string(no)
                        + ",ny=" + std::to_string(ny) + ",nx=" + std::to_string(nx);
   auto det = [&]() { return JObj().integer("no", no).integer("ny", ny).integer("nx", nx).raw("x", hexv(x)).done(); };
   rep.note_input(Report::hash_vec(x, Report::hash_vec(y)), true);
